@@ -9,7 +9,7 @@ PROPS = {
         'design_ref': 'DESIGN.md §5 U1, §6 C04',
     },
     'C01': {
-        'verus': ['program_lines', 'program_state'],
+        'verus': ['program_lines', 'program_state', 'interp_api', 'source_map'],
         'kani': ['rng', 'arrays'],
         'level': 'proof',
         'design_ref': 'DESIGN.md §6 C01',
@@ -38,14 +38,32 @@ PROPS = {
         'level': 'proof',
         'design_ref': 'DESIGN.md §5 U4/K5, §6 C12',
     },
+    'C06': {
+        'verus': ['analyzer_kinds', 'program_state'],
+        'kani': ['operators'],
+        'level': 'proof',
+        'design_ref': 'DESIGN.md §5 U7/K2, §6 C06',
+    },
+    'C08': {
+        'verus': ['program_state', 'interp_api'],
+        'kani': ['operators'],
+        'level': 'proof',
+        'design_ref': 'DESIGN.md §6 C08',
+    },
+    'C19': {
+        'verus': ['web_adapter', 'interp_api'],
+        'kani': [],
+        'level': 'proof',
+        'design_ref': 'DESIGN.md §5 U9, §6 C19',
+    },
     'C07': {
-        'verus': ['program_state'],
+        'verus': ['program_state', 'interp_api'],
         'kani': [],
         'level': 'proof',
         'design_ref': 'DESIGN.md §6 C07',
     },
     'C09': {
-        'verus': ['program_state'],
+        'verus': ['program_state', 'interp_api', 'line_cruncher'],
         'kani': [],
         'level': 'proof',
         'design_ref': 'DESIGN.md §6 C09',
@@ -88,7 +106,10 @@ UNDECIDED = {
     'C03': ["statement dispatch, IF/ELSE token skipping, FOR/NEXT arithmetic in doubles (end_loop), DIM/array statements: undecided", "the IF..THEN GOSUB..ELSE defect named in the property lives in statement.rs and cannot be seen by this check"],
     'C05': ["SourceFileAnalyzer::run (enumerate/zip, tokenizer) - where the two known panics are - is outside both tools: this check cannot report them", "that registered token ranges lie within the line on char boundaries is C13's claim (not applicable)", "per-line token lists, symbol-warning mapping with unwrap: undecided"],
     'C12': ["identifier scanning with keyword lookahead, numerals, DATA items (String::from_utf8, str::parse, trim) and the composition in Tokenizer::next: undecided, including the `DATA \"a\" :` defect"],
-    'C07': ["that STOP and the host break both reach Program::break_at_current_location (statement.rs:28, interpreter.rs:115) is read, not proved"],
+    'C06': ["statement-level agreement (assignment / FOR / NEXT / READ kind checks in statement_analyzer.rs vs statement.rs) and the converse direction need both evaluators executed: undecided", "operand parsing below the unary tier (evaluate_parenthesized_expression: terms, calls, array subscripts) is an assumed contract", "termination of the tier loops is not claimed (exec_allows_no_decreases_clause)"],
+    'C08': ["evaluate_input_statement (consume pending reply or rewind; EXTRA IGNORED / REENTER output) and the THEN/ELSE interplay are statement dispatch: undecided, including the known IF..INPUT..ELSE defect", "reply parsing (parse_data_until_colon) is the DATA item parser: undecided"],
+    'C19': ["the page script (abasic-web/ts/main.ts) is TypeScript: its protocol is an assumption, transliterated in L_page_protocol; the start-up loader (start_evaluating per line with no error check in between) violates the adapter's precondition when a line fails - outside this check's reach", "Interpreter::start_evaluating / evaluate_impl contract is assumed (AsRef<str>, Tokenizer)", "output record text (Display) and error text + caret: fmt, undecided"],
+    'C07': ["a failing user-function call leaves its frame on the stack (expression.rs:91-97): evaluate_user_defined_function_call iterates with into_iter().enumerate(), which Verus has no specification for, and Kani cannot execute it through Interpreter - undecided, not reported by this check", "that STOP and the host break both reach Program::break_at_current_location (statement.rs:28, interpreter.rs:115) is read, not proved"],
     'C09': ["single-pass scans in statement.rs:90-106,343-353 rest on the cursor contracts plus an unverified reading of three loops"],
     'C10': ["RUN arm of maybe_process_command (fresh Variables/Arrays; pending reply not cleared) is outside Verus"],
     'C11': ["end_loop returning NEXT WITHOUT FOR on a missing loop; next_data_element rebuilding the cursor (closure) - read, not proved"],
